@@ -191,7 +191,7 @@ theorem range_ok {v : Validator} {res : Option (Nat × Int × Int)} (h : finish 
 /-- per-token step: everything the loop establishes before a price is stored. -/
 theorem setOne_ok {U : Nat} {o o' : Oracle} {v v' : Validator} {fd : Feed}
     (h : setOne U (o, v) fd = .ok (o', v')) :
-    fd.enabled = true ∧ fd.expectedProvider = fd.provider ∧ fd.feedMatches = true ∧
+    fd.enabled = true ∧ fd.prov = some fd.expectedProvider ∧ fd.feedMatches = true ∧
     validateOne U v fd.cfg fd.oracleTs fd.slot (maybeAdjust U fd) fd.ref = .ok v' ∧
     fromPriceOk (maybeAdjust U fd) = true ∧
     o'.prices = (fd.token, maybeAdjust U fd) :: o.prices.filter (·.1 != fd.token) := by
@@ -199,31 +199,39 @@ theorem setOne_ok {U : Nat} {o o' : Oracle} {v v' : Validator} {fd : Feed}
   simp only at h
   by_cases h1 : fd.enabled = true
   · simp only [h1, Bool.not_true, Bool.false_eq_true, if_false] at h
-    by_cases h2 : fd.expectedProvider = fd.provider
-    · simp only [h2, ne_eq, not_true_eq_false, if_false] at h
-      by_cases h3' : fd.cfg.found = true
-      · simp only [h3', Bool.not_true, Bool.false_eq_true, if_false] at h
-        by_cases h3 : fd.feedMatches = true
-        · simp only [h3, Bool.not_true, Bool.false_eq_true, if_false] at h
-          cases hv : validateOne U v fd.cfg fd.oracleTs fd.slot (maybeAdjust U fd) fd.ref with
-          | error e => simp [hv] at h
-          | ok v1 =>
-            simp only [hv] at h
-            by_cases h4 : fromPriceOk (maybeAdjust U fd) = true
-            · simp only [h4, if_true] at h
-              injection h with h; injection h with ha hb
-              subst ha; subst hb
-              exact ⟨h1, h2, h3, rfl, h4, rfl⟩
-            · simp [h4] at h
-        · simp [h3] at h
-      · simp [h3'] at h
-    · simp [h2] at h
+    cases hp : fd.prov with
+    | none => simp [hp] at h
+    | some pv =>
+      simp only [hp] at h
+      by_cases h2 : fd.expectedProvider = pv
+      · subst h2
+        simp only [ne_eq, not_true_eq_false, and_false, if_false] at h
+        by_cases h3' : fd.cfg.found = true
+        · simp only [h3', Bool.not_true, Bool.false_eq_true, if_false] at h
+          by_cases h3 : fd.feedMatches = true
+          · simp only [h3, Bool.not_true, Bool.false_eq_true, if_false] at h
+            by_cases h5 : fd.acct = .custom ∧ fd.expectedProvider ≠ 0
+            · simp [h5] at h
+            · simp only [h5, if_false] at h
+              cases hv : validateOne U v fd.cfg fd.oracleTs fd.slot (maybeAdjust U fd) fd.ref with
+              | error e => simp [hv] at h
+              | ok v1 =>
+                simp only [hv] at h
+                by_cases h4 : fromPriceOk (maybeAdjust U fd) = true
+                · simp only [h4, if_true] at h
+                  injection h with h; injection h with ha hb
+                  subst ha; subst hb
+                  exact ⟨h1, rfl, h3, rfl, h4, rfl⟩
+                · simp [h4] at h
+          · simp [h3] at h
+        · simp [h3'] at h
+      · by_cases hc : fd.acct = .custom <;> simp [hc, h2] at h
   · simp [h1] at h
 
 /-- expected provider and feed: a token whose feed comes from another provider, whose feed id
 does not match, or whose config is disabled, never gets a price. -/
 theorem provider_feed_match {U : Nat} {o : Oracle} {v : Validator} {fd : Feed}
-    (h : fd.enabled = false ∨ fd.expectedProvider ≠ fd.provider ∨ fd.feedMatches = false) :
+    (h : fd.enabled = false ∨ fd.prov ≠ some fd.expectedProvider ∨ fd.feedMatches = false) :
     ∃ e, setOne U (o, v) fd = .error e := by
   cases hs : setOne U (o, v) fd with
   | error e => exact ⟨e, rfl⟩
@@ -358,36 +366,36 @@ example : finish { now := 1000, maxAge := 60, maxRange := 5, maxFuture := 10, mi
     finish { now := 1000, maxAge := 60, maxRange := 4, maxFuture := 10 } = .error .overflow := ⟨by rfl, by rfl, by rfl⟩
 
 /-- `setOne_ok` hypothesis: one accepted token (expected provider, matching feed, fresh, in band, well-formed) -/
-example : (setOne (10 ^ 20) ({}, { now := 1000, maxAge := 60, maxRange := 5, maxFuture := 10 }) { token := 1, enabled := true, expectedProvider := 2, provider := 2, feedMatches := true, allowAdjust := false, cfg := { found := true, adjustment := 1, devFactor := some (10 ^ 18) }, oracleTs := 990, slot := 7, price := ⟨⟨995, 2⟩, ⟨1005, 2⟩⟩, ref := some ⟨1000, 2⟩ }).toOption.map (fun r => (r.1.prices, r.2.minTs, r.2.maxTs, r.2.minSlot)) =
+example : (setOne (10 ^ 20) ({}, { now := 1000, maxAge := 60, maxRange := 5, maxFuture := 10 }) { token := 1, enabled := true, expectedProvider := 0, provider := 0, feedMatches := true, allowAdjust := false, cfg := { found := true, adjustment := 1, devFactor := some (10 ^ 18) }, oracleTs := 990, slot := 7, price := ⟨⟨995, 2⟩, ⟨1005, 2⟩⟩, ref := some ⟨1000, 2⟩ }).toOption.map (fun r => (r.1.prices, r.2.minTs, r.2.maxTs, r.2.minSlot)) =
     some ([(1, ⟨⟨995, 2⟩, ⟨1005, 2⟩⟩)], 989, 989, some 7) := by rfl
 
 /-- `provider_feed_match` instantiated: the same feed from another provider is rejected -/
 example : ∃ e, setOne (10 ^ 20) (({} : Oracle), ({ now := 1000, maxAge := 60, maxRange := 5, maxFuture := 10 } : Validator))
-    ({ ({ token := 1, enabled := true, expectedProvider := 2, provider := 2, feedMatches := true, allowAdjust := false, cfg := { found := true, adjustment := 1, devFactor := some (10 ^ 18) }, oracleTs := 990, slot := 7, price := ⟨⟨995, 2⟩, ⟨1005, 2⟩⟩, ref := some ⟨1000, 2⟩ } : Feed) with provider := 9 }) = .error e :=
+    ({ ({ token := 1, enabled := true, expectedProvider := 0, provider := 0, feedMatches := true, allowAdjust := false, cfg := { found := true, adjustment := 1, devFactor := some (10 ^ 18) }, oracleTs := 990, slot := 7, price := ⟨⟨995, 2⟩, ⟨1005, 2⟩⟩, ref := some ⟨1000, 2⟩ } : Feed) with provider := 9 }) = .error e :=
   provider_feed_match (.inr (.inl (by decide)))
 
 /-- `setLoop_range` / `setLoop_wellformed` / `accepted_batch` hypotheses: a batch of TWO tokens (different providers,
 adjustments 1 and 0, one with a deviation check, one without) is accepted with adjusted timestamps 989 and 994 —
 exactly `max_oracle_timestamp_range = 5` apart; with range 4 the same batch is rejected -/
-example : (setLoop (10 ^ 20) ({}, { now := 1000, maxAge := 60, maxRange := 5, maxFuture := 10 }) [{ token := 1, enabled := true, expectedProvider := 2, provider := 2, feedMatches := true, allowAdjust := false, cfg := { found := true, adjustment := 1, devFactor := some (10 ^ 18) }, oracleTs := 990, slot := 7, price := ⟨⟨995, 2⟩, ⟨1005, 2⟩⟩, ref := some ⟨1000, 2⟩ }, { token := 2, enabled := true, expectedProvider := 3, provider := 3, feedMatches := true, allowAdjust := true, cfg := { found := true, adjustment := 0, devFactor := none }, oracleTs := 994, slot := 5, price := ⟨⟨3, 0⟩, ⟨4, 0⟩⟩, ref := none }]).toOption.map (fun r => (r.1.prices.map (·.1), r.2.minTs, r.2.maxTs, r.2.minSlot)) =
+example : (setLoop (10 ^ 20) ({}, { now := 1000, maxAge := 60, maxRange := 5, maxFuture := 10 }) [{ token := 1, enabled := true, expectedProvider := 0, provider := 0, feedMatches := true, allowAdjust := false, cfg := { found := true, adjustment := 1, devFactor := some (10 ^ 18) }, oracleTs := 990, slot := 7, price := ⟨⟨995, 2⟩, ⟨1005, 2⟩⟩, ref := some ⟨1000, 2⟩ }, { token := 2, enabled := true, expectedProvider := 1, provider := 1, acct := .pyth, feedMatches := true, allowAdjust := true, cfg := { found := true, adjustment := 0, devFactor := none }, oracleTs := 994, slot := 5, price := ⟨⟨3, 0⟩, ⟨4, 0⟩⟩, ref := none }]).toOption.map (fun r => (r.1.prices.map (·.1), r.2.minTs, r.2.maxTs, r.2.minSlot)) =
     some ([2, 1], 989, 994, some 5) := by rfl
-example : setPrices (10 ^ 20) {} { now := 1000, maxAge := 60, maxRange := 5, maxFuture := 10 } [{ token := 1, enabled := true, expectedProvider := 2, provider := 2, feedMatches := true, allowAdjust := false, cfg := { found := true, adjustment := 1, devFactor := some (10 ^ 18) }, oracleTs := 990, slot := 7, price := ⟨⟨995, 2⟩, ⟨1005, 2⟩⟩, ref := some ⟨1000, 2⟩ }, { token := 2, enabled := true, expectedProvider := 3, provider := 3, feedMatches := true, allowAdjust := true, cfg := { found := true, adjustment := 0, devFactor := none }, oracleTs := 994, slot := 5, price := ⟨⟨3, 0⟩, ⟨4, 0⟩⟩, ref := none }] =
+example : setPrices (10 ^ 20) {} { now := 1000, maxAge := 60, maxRange := 5, maxFuture := 10 } [{ token := 1, enabled := true, expectedProvider := 0, provider := 0, feedMatches := true, allowAdjust := false, cfg := { found := true, adjustment := 1, devFactor := some (10 ^ 18) }, oracleTs := 990, slot := 7, price := ⟨⟨995, 2⟩, ⟨1005, 2⟩⟩, ref := some ⟨1000, 2⟩ }, { token := 2, enabled := true, expectedProvider := 1, provider := 1, acct := .pyth, feedMatches := true, allowAdjust := true, cfg := { found := true, adjustment := 0, devFactor := none }, oracleTs := 994, slot := 5, price := ⟨⟨3, 0⟩, ⟨4, 0⟩⟩, ref := none }] =
     .ok { minTs := 989, maxTs := 994, minSlot := 5, cleared := false,
           prices := [(2, ⟨⟨3, 0⟩, ⟨4, 0⟩⟩), (1, ⟨⟨995, 2⟩, ⟨1005, 2⟩⟩)] } := by rfl
-example : setPrices (10 ^ 20) {} { now := 1000, maxAge := 60, maxRange := 4, maxFuture := 10 } [{ token := 1, enabled := true, expectedProvider := 2, provider := 2, feedMatches := true, allowAdjust := false, cfg := { found := true, adjustment := 1, devFactor := some (10 ^ 18) }, oracleTs := 990, slot := 7, price := ⟨⟨995, 2⟩, ⟨1005, 2⟩⟩, ref := some ⟨1000, 2⟩ }, { token := 2, enabled := true, expectedProvider := 3, provider := 3, feedMatches := true, allowAdjust := true, cfg := { found := true, adjustment := 0, devFactor := none }, oracleTs := 994, slot := 5, price := ⟨⟨3, 0⟩, ⟨4, 0⟩⟩, ref := none }] = .error .range := by rfl
+example : setPrices (10 ^ 20) {} { now := 1000, maxAge := 60, maxRange := 4, maxFuture := 10 } [{ token := 1, enabled := true, expectedProvider := 0, provider := 0, feedMatches := true, allowAdjust := false, cfg := { found := true, adjustment := 1, devFactor := some (10 ^ 18) }, oracleTs := 990, slot := 7, price := ⟨⟨995, 2⟩, ⟨1005, 2⟩⟩, ref := some ⟨1000, 2⟩ }, { token := 2, enabled := true, expectedProvider := 1, provider := 1, acct := .pyth, feedMatches := true, allowAdjust := true, cfg := { found := true, adjustment := 0, devFactor := none }, oracleTs := 994, slot := 5, price := ⟨⟨3, 0⟩, ⟨4, 0⟩⟩, ref := none }] = .error .range := by rfl
 /-- … and prices already set ⇒ rejected (the `cleared` precondition of `accepted_batch` is checked by the code) -/
-example : setPrices (10 ^ 20) { cleared := false } { now := 1000, maxAge := 60, maxRange := 5, maxFuture := 10 } [{ token := 1, enabled := true, expectedProvider := 2, provider := 2, feedMatches := true, allowAdjust := false, cfg := { found := true, adjustment := 1, devFactor := some (10 ^ 18) }, oracleTs := 990, slot := 7, price := ⟨⟨995, 2⟩, ⟨1005, 2⟩⟩, ref := some ⟨1000, 2⟩ }] = .error .pricesSet := by rfl
+example : setPrices (10 ^ 20) { cleared := false } { now := 1000, maxAge := 60, maxRange := 5, maxFuture := 10 } [{ token := 1, enabled := true, expectedProvider := 0, provider := 0, feedMatches := true, allowAdjust := false, cfg := { found := true, adjustment := 1, devFactor := some (10 ^ 18) }, oracleTs := 990, slot := 7, price := ⟨⟨995, 2⟩, ⟨1005, 2⟩⟩, ref := some ⟨1000, 2⟩ }] = .error .pricesSet := by rfl
 
 /-- `cleared_after_use` on that batch: the wrapped operation saw the two prices, the oracle left behind is empty -/
-example : (withPrices (10 ^ 20) {} { now := 1000, maxAge := 60, maxRange := 5, maxFuture := 10 } [{ token := 1, enabled := true, expectedProvider := 2, provider := 2, feedMatches := true, allowAdjust := false, cfg := { found := true, adjustment := 1, devFactor := some (10 ^ 18) }, oracleTs := 990, slot := 7, price := ⟨⟨995, 2⟩, ⟨1005, 2⟩⟩, ref := some ⟨1000, 2⟩ }, { token := 2, enabled := true, expectedProvider := 3, provider := 3, feedMatches := true, allowAdjust := true, cfg := { found := true, adjustment := 0, devFactor := none }, oracleTs := 994, slot := 5, price := ⟨⟨3, 0⟩, ⟨4, 0⟩⟩, ref := none }] true).1.toOption.map (fun r => r.2.prices.length) = some 2 ∧
-    (withPrices (10 ^ 20) {} { now := 1000, maxAge := 60, maxRange := 5, maxFuture := 10 } [{ token := 1, enabled := true, expectedProvider := 2, provider := 2, feedMatches := true, allowAdjust := false, cfg := { found := true, adjustment := 1, devFactor := some (10 ^ 18) }, oracleTs := 990, slot := 7, price := ⟨⟨995, 2⟩, ⟨1005, 2⟩⟩, ref := some ⟨1000, 2⟩ }, { token := 2, enabled := true, expectedProvider := 3, provider := 3, feedMatches := true, allowAdjust := true, cfg := { found := true, adjustment := 0, devFactor := none }, oracleTs := 994, slot := 5, price := ⟨⟨3, 0⟩, ⟨4, 0⟩⟩, ref := none }] true).2 = {} := ⟨by rfl, (cleared_after_use _ _ _ _ _).1⟩
+example : (withPrices (10 ^ 20) {} { now := 1000, maxAge := 60, maxRange := 5, maxFuture := 10 } [{ token := 1, enabled := true, expectedProvider := 0, provider := 0, feedMatches := true, allowAdjust := false, cfg := { found := true, adjustment := 1, devFactor := some (10 ^ 18) }, oracleTs := 990, slot := 7, price := ⟨⟨995, 2⟩, ⟨1005, 2⟩⟩, ref := some ⟨1000, 2⟩ }, { token := 2, enabled := true, expectedProvider := 1, provider := 1, acct := .pyth, feedMatches := true, allowAdjust := true, cfg := { found := true, adjustment := 0, devFactor := none }, oracleTs := 994, slot := 5, price := ⟨⟨3, 0⟩, ⟨4, 0⟩⟩, ref := none }] true).1.toOption.map (fun r => r.2.prices.length) = some 2 ∧
+    (withPrices (10 ^ 20) {} { now := 1000, maxAge := 60, maxRange := 5, maxFuture := 10 } [{ token := 1, enabled := true, expectedProvider := 0, provider := 0, feedMatches := true, allowAdjust := false, cfg := { found := true, adjustment := 1, devFactor := some (10 ^ 18) }, oracleTs := 990, slot := 7, price := ⟨⟨995, 2⟩, ⟨1005, 2⟩⟩, ref := some ⟨1000, 2⟩ }, { token := 2, enabled := true, expectedProvider := 1, provider := 1, acct := .pyth, feedMatches := true, allowAdjust := true, cfg := { found := true, adjustment := 0, devFactor := none }, oracleTs := 994, slot := 5, price := ⟨⟨3, 0⟩, ⟨4, 0⟩⟩, ref := none }] true).2 = {} := ⟨by rfl, (cleared_after_use _ _ _ _ _).1⟩
 
 /-- AUDIT (strength): `setLoop_range` only carries the RANGE facts through the loop; this carries everything `setOne_ok`
 and `accepted_fresh` establish for EVERY feed of an accepted batch, relative to the validator the batch started with
 (the loop never changes `now`, `maxAge`, `maxFuture`) -/
 theorem setLoop_each_accepted {U : Nat} : ∀ (feeds : List Feed) (o o' : Oracle) (v v' : Validator),
     setLoop U (o, v) feeds = .ok (o', v') →
-    ∀ fd ∈ feeds, fd.enabled = true ∧ fd.expectedProvider = fd.provider ∧ fd.feedMatches = true ∧ fd.cfg.found = true ∧
+    ∀ fd ∈ feeds, fd.enabled = true ∧ fd.prov = some fd.expectedProvider ∧ fd.feedMatches = true ∧ fd.cfg.found = true ∧
       fromPriceOk (maybeAdjust U fd) = true ∧
       v.now ≤ fd.oracleTs - fd.cfg.adjustment + v.maxAge ∧ fd.oracleTs ≤ v.now + v.maxFuture
   | [], _, _, _, _, _ => by intro fd hfd; cases hfd
@@ -413,7 +421,7 @@ provider and feed, is no older than `max_age` after its timestamp adjustment and
 theorem accepted_batch_each_fresh {U : Nat} {o o' : Oracle} {v : Validator} {feeds : List Feed}
     (h : setPrices U o v feeds = .ok o') :
     o.cleared = true ∧ o.prices = [] ∧ feeds.length ≤ 512 ∧
-    ∀ fd ∈ feeds, fd.enabled = true ∧ fd.expectedProvider = fd.provider ∧ fd.feedMatches = true ∧ fd.cfg.found = true ∧
+    ∀ fd ∈ feeds, fd.enabled = true ∧ fd.prov = some fd.expectedProvider ∧ fd.feedMatches = true ∧ fd.cfg.found = true ∧
       fromPriceOk (maybeAdjust U fd) = true ∧
       v.now ≤ fd.oracleTs - fd.cfg.adjustment + v.maxAge ∧ fd.oracleTs ≤ v.now + v.maxFuture := by
   unfold setPrices at h
@@ -434,17 +442,17 @@ theorem accepted_batch_each_fresh {U : Nat} {o o' : Oracle} {v : Validator} {fee
 
 /-- instantiated on the two-token batch: token 1's adjusted timestamp 989 is within max age 60 of now = 1000 -/
 example : (1000 : Int) ≤ 990 - (1 : Nat) + (60 : Nat) ∧ (990 : Int) ≤ 1000 + (10 : Nat) :=
-  ((accepted_batch_each_fresh (U := 10 ^ 20) (o := {}) (v := { now := 1000, maxAge := 60, maxRange := 5, maxFuture := 10 }) (feeds := [{ token := 1, enabled := true, expectedProvider := 2, provider := 2, feedMatches := true, allowAdjust := false, cfg := { found := true, adjustment := 1, devFactor := some (10 ^ 18) }, oracleTs := 990, slot := 7, price := ⟨⟨995, 2⟩, ⟨1005, 2⟩⟩, ref := some ⟨1000, 2⟩ }, { token := 2, enabled := true, expectedProvider := 3, provider := 3, feedMatches := true, allowAdjust := true, cfg := { found := true, adjustment := 0, devFactor := none }, oracleTs := 994, slot := 5, price := ⟨⟨3, 0⟩, ⟨4, 0⟩⟩, ref := none }])
+  ((accepted_batch_each_fresh (U := 10 ^ 20) (o := {}) (v := { now := 1000, maxAge := 60, maxRange := 5, maxFuture := 10 }) (feeds := [{ token := 1, enabled := true, expectedProvider := 0, provider := 0, feedMatches := true, allowAdjust := false, cfg := { found := true, adjustment := 1, devFactor := some (10 ^ 18) }, oracleTs := 990, slot := 7, price := ⟨⟨995, 2⟩, ⟨1005, 2⟩⟩, ref := some ⟨1000, 2⟩ }, { token := 2, enabled := true, expectedProvider := 1, provider := 1, acct := .pyth, feedMatches := true, allowAdjust := true, cfg := { found := true, adjustment := 0, devFactor := none }, oracleTs := 994, slot := 5, price := ⟨⟨3, 0⟩, ⟨4, 0⟩⟩, ref := none }])
       (o' := { minTs := 989, maxTs := 994, minSlot := 5, cleared := false,
                prices := [(2, ⟨⟨3, 0⟩, ⟨4, 0⟩⟩), (1, ⟨⟨995, 2⟩, ⟨1005, 2⟩⟩)] }) (by rfl)).2.2.2
-    { token := 1, enabled := true, expectedProvider := 2, provider := 2, feedMatches := true, allowAdjust := false, cfg := { found := true, adjustment := 1, devFactor := some (10 ^ 18) }, oracleTs := 990, slot := 7, price := ⟨⟨995, 2⟩, ⟨1005, 2⟩⟩, ref := some ⟨1000, 2⟩ } (List.mem_cons_self)).2.2.2.2.2
+    { token := 1, enabled := true, expectedProvider := 0, provider := 0, feedMatches := true, allowAdjust := false, cfg := { found := true, adjustment := 1, devFactor := some (10 ^ 18) }, oracleTs := 990, slot := 7, price := ⟨⟨995, 2⟩, ⟨1005, 2⟩⟩, ref := some ⟨1000, 2⟩ } (List.mem_cons_self)).2.2.2.2.2
 
 /-- `accepted_batch` instantiated on the same batch: the two adjusted timestamps are at most `maxRange = 5` apart -/
 example : ((994 : Int) - (0 : Nat)) - (990 - (1 : Nat)) ≤ (5 : Nat) :=
-  (accepted_batch (U := 10 ^ 20) (o := {}) (v := { now := 1000, maxAge := 60, maxRange := 5, maxFuture := 10 }) (feeds := [{ token := 1, enabled := true, expectedProvider := 2, provider := 2, feedMatches := true, allowAdjust := false, cfg := { found := true, adjustment := 1, devFactor := some (10 ^ 18) }, oracleTs := 990, slot := 7, price := ⟨⟨995, 2⟩, ⟨1005, 2⟩⟩, ref := some ⟨1000, 2⟩ }, { token := 2, enabled := true, expectedProvider := 3, provider := 3, feedMatches := true, allowAdjust := true, cfg := { found := true, adjustment := 0, devFactor := none }, oracleTs := 994, slot := 5, price := ⟨⟨3, 0⟩, ⟨4, 0⟩⟩, ref := none }])
+  (accepted_batch (U := 10 ^ 20) (o := {}) (v := { now := 1000, maxAge := 60, maxRange := 5, maxFuture := 10 }) (feeds := [{ token := 1, enabled := true, expectedProvider := 0, provider := 0, feedMatches := true, allowAdjust := false, cfg := { found := true, adjustment := 1, devFactor := some (10 ^ 18) }, oracleTs := 990, slot := 7, price := ⟨⟨995, 2⟩, ⟨1005, 2⟩⟩, ref := some ⟨1000, 2⟩ }, { token := 2, enabled := true, expectedProvider := 1, provider := 1, acct := .pyth, feedMatches := true, allowAdjust := true, cfg := { found := true, adjustment := 0, devFactor := none }, oracleTs := 994, slot := 5, price := ⟨⟨3, 0⟩, ⟨4, 0⟩⟩, ref := none }])
       (o' := { minTs := 989, maxTs := 994, minSlot := 5, cleared := false,
                prices := [(2, ⟨⟨3, 0⟩, ⟨4, 0⟩⟩), (1, ⟨⟨995, 2⟩, ⟨1005, 2⟩⟩)] }) (by rfl)).2
-    { token := 2, enabled := true, expectedProvider := 3, provider := 3, feedMatches := true, allowAdjust := true, cfg := { found := true, adjustment := 0, devFactor := none }, oracleTs := 994, slot := 5, price := ⟨⟨3, 0⟩, ⟨4, 0⟩⟩, ref := none } (List.mem_cons_of_mem _ List.mem_cons_self) { token := 1, enabled := true, expectedProvider := 2, provider := 2, feedMatches := true, allowAdjust := false, cfg := { found := true, adjustment := 1, devFactor := some (10 ^ 18) }, oracleTs := 990, slot := 7, price := ⟨⟨995, 2⟩, ⟨1005, 2⟩⟩, ref := some ⟨1000, 2⟩ } List.mem_cons_self
+    { token := 2, enabled := true, expectedProvider := 1, provider := 1, acct := .pyth, feedMatches := true, allowAdjust := true, cfg := { found := true, adjustment := 0, devFactor := none }, oracleTs := 994, slot := 5, price := ⟨⟨3, 0⟩, ⟨4, 0⟩⟩, ref := none } (List.mem_cons_of_mem _ List.mem_cons_self) { token := 1, enabled := true, expectedProvider := 0, provider := 0, feedMatches := true, allowAdjust := false, cfg := { found := true, adjustment := 1, devFactor := some (10 ^ 18) }, oracleTs := 990, slot := 7, price := ⟨⟨995, 2⟩, ⟨1005, 2⟩⟩, ref := some ⟨1000, 2⟩ } List.mem_cons_self
 
 
 /-- a token without a feed config for the feed's provider never gets a price either
@@ -553,7 +561,7 @@ or failed (`getD` fallback). Any two accepted adjusted timestamps are within
 theorem accepted_batch_full {U : Nat} {o o' : Oracle} {v : Validator} {feeds : List Feed}
     (h : setPrices U o v feeds = .ok o') :
     (∀ fd ∈ feeds,
-      fd.enabled = true ∧ fd.expectedProvider = fd.provider ∧ fd.feedMatches = true ∧ fd.cfg.found = true ∧
+      fd.enabled = true ∧ fd.prov = some fd.expectedProvider ∧ fd.feedMatches = true ∧ fd.cfg.found = true ∧
       (0 < (maybeAdjust U fd).min.unit ∧ (maybeAdjust U fd).min.unit ≤ (maybeAdjust U fd).max.unit ∧
         (maybeAdjust U fd).min.mult = (maybeAdjust U fd).max.mult) ∧
       v.now ≤ fd.oracleTs - fd.cfg.adjustment + v.maxAge ∧ fd.oracleTs ≤ v.now + v.maxFuture ∧
@@ -622,5 +630,62 @@ theorem accepted_batch_adjusted_in_band {o o' : Oracle} {v : Validator} {feeds :
   intro r h12 hr hd
   rw [maybeAdjust_eq_adjusted (U := 10 ^ 20) ha hf]
   exact C29.e2e_dev_zero_equals_reference h12 hr hd hacc
+
+/-! ### round 5: the expected-provider clause for EVERY account kind -/
+
+/-- an accepted price comes from the token's expected provider, whatever kind of account carried
+it: a store-owned custom feed must store the expected provider (and only ChainlinkDataStreams
+feeds are decoded from custom accounts), an account owned by the Pyth receiver is accepted only
+for a token expecting Pyth, a Switchboard-owned one only for Switchboard, and an account of any
+other owner never. -/
+theorem accepted_provider_is_expected {U : Nat} {o o' : Oracle} {v v' : Validator} {fd : Feed}
+    (h : setOne U (o, v) fd = .ok (o', v')) :
+    match fd.acct with
+    | .custom => fd.provider = fd.expectedProvider ∧ fd.expectedProvider = 0
+    | .pyth => fd.expectedProvider = 1
+    | .switchboard => fd.expectedProvider = 3
+    | .foreign => False := by
+  obtain ⟨_, hp, _, _, _, _⟩ := setOne_ok h
+  cases ha : fd.acct with
+  | custom =>
+    simp only [Feed.prov, ha, Option.some.injEq] at hp
+    refine ⟨hp, ?_⟩
+    -- a custom account with a non-zero provider is rejected by the last guard
+    apply Classical.byContradiction
+    intro hne
+    unfold setOne at h
+    simp only [Feed.prov, ha, hp] at h
+    repeat' split at h
+    all_goals simp_all
+  | pyth => simp only [Feed.prov, ha, Option.some.injEq] at hp; exact hp.symm
+  | switchboard => simp only [Feed.prov, ha, Option.some.injEq] at hp; exact hp.symm
+  | foreign => simp [Feed.prov, ha] at hp
+
+/-- in particular a VALID Pyth (or Switchboard) account of a token that expects another provider
+is rejected although the token has a feed configured for it — the comparison in
+`parse_from_feed_account` is the only one these account kinds pass through. -/
+theorem foreign_provider_account_rejected {U : Nat} {o : Oracle} {v : Validator} {fd : Feed}
+    (h : (fd.acct = .pyth ∧ fd.expectedProvider ≠ 1) ∨ (fd.acct = .switchboard ∧ fd.expectedProvider ≠ 3) ∨
+      fd.acct = .foreign) : ∃ e, setOne U (o, v) fd = .error e := by
+  cases hs : setOne U (o, v) fd with
+  | error e => exact ⟨e, rfl⟩
+  | ok ov =>
+    obtain ⟨o', v'⟩ := ov
+    have := accepted_provider_is_expected hs
+    rcases h with ⟨ha, hne⟩ | ⟨ha, hne⟩ | ha <;> simp [ha] at this <;> omega
+
+/-- batch level: every feed of an accepted batch satisfies the clause. -/
+theorem accepted_batch_providers {U : Nat} {o o' : Oracle} {v : Validator} {feeds : List Feed}
+    (h : setPrices U o v feeds = .ok o') : ∀ fd ∈ feeds, fd.prov = some fd.expectedProvider :=
+  fun fd hfd => ((accepted_batch_full h).1 fd hfd).2.1
+
+example : (setOne (10 ^ 20) ({}, { now := 1000, maxAge := 60, maxRange := 5, maxFuture := 10 })
+    { token := 1, enabled := true, expectedProvider := 0, provider := 0, acct := .pyth, feedMatches := true, allowAdjust := false,
+      cfg := { found := true, adjustment := 1, devFactor := none }, oracleTs := 990, slot := 7,
+      price := ⟨⟨995, 2⟩, ⟨1005, 2⟩⟩, ref := none }).toOption.isSome = false := by rfl
+example : (setOne (10 ^ 20) ({}, { now := 1000, maxAge := 60, maxRange := 5, maxFuture := 10 })
+    { token := 1, enabled := true, expectedProvider := 1, provider := 0, acct := .pyth, feedMatches := true, allowAdjust := false,
+      cfg := { found := true, adjustment := 1, devFactor := none }, oracleTs := 990, slot := 7,
+      price := ⟨⟨995, 2⟩, ⟨1005, 2⟩⟩, ref := none }).toOption.isSome = true := by rfl
 
 end Gmx.C24
